@@ -9,7 +9,7 @@ Require Import Selen.Model.Propagate Selen.Model.Search Selen.Model.EngineSpec.
 Require Import Selen.Model.Api Selen.Model.Lower Selen.Model.Routes.
 Require Selen.Generated.Consts.
 Require Import Selen.Proofs.DomProofs Selen.Proofs.LowerProofs Selen.Proofs.EngineProofs.
-Require Import Selen.Proofs.Props.BasicProofs Selen.Proofs.Props.LinIntProofs Selen.Proofs.Props.ArithProofs
+Require Import Selen.Proofs.Props.BasicProofs Selen.Proofs.Props.NeqProofs Selen.Proofs.Props.LinIntProofs Selen.Proofs.Props.ArithProofs
                Selen.Proofs.Props.ArithMulProofs Selen.Proofs.Props.ArithModProofs Selen.Proofs.Props.LogicProofs
                Selen.Proofs.Props.GlobalProofs Selen.Proofs.Props.AllDiffProofs.
 
@@ -688,8 +688,7 @@ Qed.
 Definition vok (w : view) : Prop := view_ok w.
 Definition desc_ok (p : rdesc) : Prop :=
   match p with
-  | PB (PAdd x y _) | PB (PMul x y _) | PB (PMod x y _) | PB (PLeq x y) | PB (PEq x y) => view_ok x /\ view_ok y
-  | PB (PNeq _ _) => False                               (* no-op NotEquals: class neq_noop (D3) *)
+  | PB (PAdd x y _) | PB (PMul x y _) | PB (PMod x y _) | PB (PLeq x y) | PB (PEq x y) | PB (PNeq x y) => view_ok x /\ view_ok y
   | PB (PLinEq cs xs _) | PB (PLinLe cs xs _) => all_zero cs xs = false      (* D11 *)
   | PB (PLinNe _ _ _) => True
   | PSum xs _ => Forall view_ok xs
@@ -710,7 +709,7 @@ Proof.
     + apply mk_mod_good; apply H.
     + apply mk_leq_good; apply H.
     + apply mk_eq_good; apply H.
-    + contradiction.
+    + apply NeqProofs.mk_neq_good; apply H.
     + apply mk_lin_eq_good; assumption.
     + apply mk_lin_le_good; assumption.
     + apply mk_lin_ne_good.
@@ -1169,3 +1168,112 @@ Lemma cumulative_fixed_rejects : exists s ps,
   length s = 7%nat /\
   forallb (fun t => negb (rallsatb ps (asgl ([0; 0; 2; 2] ++ t)))) (all_asgs [[0; 1]; [0; 1]; [0; 1]]) = true.
 Proof. do 2 eexists. split; [vm_compute; reflexivity|]. split; vm_compute; reflexivity. Qed.
+
+(* ------------------------------------------------------------------------------------------ *)
+(* 10. the repairs e45322d (length-mismatched reified linear postings) and e2596cd (malformed table tuples):
+   positive statements about call_fixed / rbuild_fixed, the model of the current tree *)
+Lemma linreif_fixed_wellformed : forall op cs xs k b m, length cs = length xs ->
+  call_fixed (RLinReif op cs xs k b) m = call (RLinReif op cs xs k b) m.
+Proof. intros. unfold call_fixed. rewrite H, Nat.eqb_refl. reflexivity. Qed.
+
+(* a length mismatch posts equals(b, 0): exactly the documented meaning "the reification is false" *)
+Theorem linreif_len_fixed_exact : forall op cs xs k b m, length cs <> length xs -> (b < rnvars (rst m))%nat ->
+  let m' := call_fixed (RLinReif op cs xs k b) m in
+  rpanic m' = rpanic m /\ rverr m' = rverr m /\ rpend m' = rpend m /\ ruser m' = ruser m /\
+  rexact (rst m) (rst m') (fun a => route_sem (RLinReif op cs xs k b) 0%nat a = true) /\
+  (forall a, route_sem (RLinReif op cs xs k b) 0%nat a = true <-> a b = 0).
+Proof.
+  intros op cs xs k b m Hne Hb. unfold call_fixed. apply Nat.eqb_neq in Hne. rewrite Hne. simpl.
+  repeat (split; [reflexivity|]). split.
+  - eapply rexact_weaken; [|apply rexact_push].
+    + intros a _. unfold rsat, route_sem. simpl. rewrite Hne. tauto.
+    + simpl. unfold vscoped; simpl. split; [exact Hb|exact I].
+  - intro a. unfold route_sem. simpl. rewrite Hne. apply Z.eqb_eq.
+Qed.
+
+Lemma table_fixed_wellformed : forall xs ts m, table_okb xs ts = true ->
+  call_fixed (RTable xs ts) m = call (RTable xs ts) m.
+Proof. intros. unfold call_fixed. rewrite H. reflexivity. Qed.
+
+Lemma table_filter_sem : forall xs ts a,
+  existsb (fun tp => tuple_eq xs tp a) (filter (fun tp => Nat.eqb (length tp) (length xs)) ts) =
+  existsb (fun tp => tuple_eq xs tp a) ts.
+Proof.
+  intros xs ts a; induction ts as [|tp r IH]; simpl; [reflexivity|].
+  destruct (Nat.eqb (length tp) (length xs)) eqn:E; simpl; rewrite IH; [reflexivity|].
+  unfold tuple_eq at 2. rewrite Nat.eqb_sym, E. reflexivity.
+Qed.
+Lemma table_filter_ok : forall xs ts, table_okb xs (filter (fun tp => Nat.eqb (length tp) (length xs)) ts) = true.
+Proof.
+  intros xs ts. unfold table_okb. apply forallb_forall. intros tp H. apply filter_In in H. apply H.
+Qed.
+
+(* a malformed table: no panic, a validation error is recorded (every solving call returns it), and the
+   propagator that is posted keeps exactly the well-formed tuples, whose meaning is the meaning of the call *)
+Theorem table_fixed_malformed : forall xs ts m, table_okb xs ts = false ->
+  let m' := call_fixed (RTable xs ts) m in
+  rverr m' = true /\ rpanic m' = rpanic m /\ rcallerr m' = rcallerr m /\
+  exists ts', snd (rst m') = snd (rst m) ++ [PTable xs ts'] /\ fst (rst m') = fst (rst m) /\
+    table_okb xs ts' = true /\ forall a, rsat (PTable xs ts') a = route_sem (RTable xs ts) 0%nat a.
+Proof.
+  intros xs ts m H. unfold call_fixed. rewrite H. simpl. repeat (split; [reflexivity|]).
+  eexists. split; [reflexivity|]. split; [reflexivity|]. split; [apply table_filter_ok|].
+  intro a. unfold rsat, route_sem. simpl. apply table_filter_sem.
+Qed.
+
+(* the calls on which the repairs change nothing *)
+Definition fixed_same (r : route) : bool :=
+  match r with
+  | RFImplies _ _ | RFElement _ _ | RCumulative _ _ _ _ => false
+  | RLinReif _ cs xs _ _ => Nat.eqb (length cs) (length xs)
+  | RTable xs ts => table_okb xs ts
+  | _ => true
+  end.
+Lemma call_fixed_same : forall r f m, fixed_same r = true -> call_fixed (rn_route f r) m = call (rn_route f r) m.
+Proof.
+  intros r f m H; destruct r; try discriminate; try reflexivity; simpl in H.
+  - simpl rn_route. unfold call_fixed. unfold table_okb in *. rewrite map_length. fold (table_okb xs tuples). 
+    unfold table_okb. rewrite H. reflexivity.
+  - simpl rn_route. unfold call_fixed. rewrite map_length, H. reflexivity.
+Qed.
+Lemma rbuild_fixed_eq : forall prog, (forall r, In (SCall r) prog -> fixed_same r = true) ->
+  rbuild_fixed prog = rbuild prog.
+Proof.
+  intros prog. unfold rbuild_fixed, rbuild. generalize rs0. induction prog as [|s rest IH]; intros m H; simpl; [reflexivity|].
+  assert (E : rexec_fixed s m = rexec s m).
+  { unfold rexec_fixed, rexec. destruct (rpanic m || rcallerr m); [reflexivity|]. destruct s; [reflexivity|].
+    apply call_fixed_same. apply H. left; reflexivity. }
+  rewrite E. apply IH. intros r Hr. apply H. right; exact Hr.
+Qed.
+
+(* C01 / C03 for route programs on the CURRENT tree (rbuild_fixed) *)
+Theorem routes_model_solutions_fixed : forall decls calls pick sols best,
+  forallb is_decl decls = true -> forallb fixed_same calls = true ->
+  let m0 := rbuild (map SB decls) in
+  calls_ok calls m0 ->
+  forall s ps, rlower (rbuild_fixed (map SB decls ++ map SCall calls)) = RLOk s ps ->
+  rvalidate s ps = None ->
+  enumerate pick (map denote_route ps) s = SOk sols best ->
+  let means a := inst a (map decl_dom decls) /\ calls_means calls m0 a in
+  NoDup sols /\
+  (forall t, In t sols -> all_fixed t = true /\ means (asg_of t)) /\
+  (forall a, means a -> exists t, In t sols /\ inst a t).
+Proof.
+  intros decls calls pick sols best Hd Hf m0 Hok s ps Hl.
+  rewrite rbuild_fixed_eq in Hl.
+  - exact (routes_model_solutions decls calls pick sols best Hd Hok s ps Hl).
+  - intros r Hr. apply in_app_or in Hr. destruct Hr as [Hr|Hr].
+    + apply in_map_iff in Hr. destruct Hr as [x [Hx _]]. discriminate.
+    + apply in_map_iff in Hr. destruct Hr as [x [Hx Hin]]. inversion Hx; subst.
+      rewrite forallb_forall in Hf. apply Hf; exact Hin.
+Qed.
+
+(* the former witnesses of classes linreif_len and table_arity_panic on the repaired model *)
+Lemma linreif_len_fixed_witness :
+  rlower (rbuild_fixed [SB (SInt 0 3); SB (SInt 0 3); SB SBool; SCall (RLinReif OEq [1] [0%nat; 1%nat] 2 2%nat)])
+  = RLOk [drange 0 3; drange 0 3; drange 0 1] [PB (PEq (VVar 2) (VConst 0))].
+Proof. vm_compute. reflexivity. Qed.
+Lemma table_arity_fixed_witness :
+  let m := rbuild_fixed [SB (SInt 0 3); SB (SInt 0 3); SCall (RTable [0%nat; 1%nat] [[1; 2; 3]; [1; 2]])] in
+  rpanic m = false /\ rverr m = true /\ snd (rst m) = [PTable [0%nat; 1%nat] [[1; 2]]].
+Proof. vm_compute. repeat split; reflexivity. Qed.
